@@ -1,6 +1,7 @@
 package symex
 
 import (
+	"unicode/utf8"
 	"fmt"
 	"go/constant"
 	"go/token"
@@ -1173,19 +1174,25 @@ func (e *Engine) next(fr *Frame, in *ssa.Next) {
 			fr.regs[in.Iter] = &IterV{S: it.S, IsS: true, Idx: it.Idx + 1}
 			return
 		}
-		rest := Str{it.S.B[it.Idx:]}
-		cs, ok := rest.Concrete()
-		if !ok {
+		// a multi-byte sequence: only the bytes of THIS rune have to be concrete (up to four)
+		end := it.Idx
+		for end < len(it.S.B) && end < it.Idx+4 && it.S.B[end].IsConst() {
+			end++
+		}
+		if end == it.Idx {
 			e.unsupported("range over string with symbolic non-ASCII byte")
 		}
-		for _, r := range cs { // first rune
-			n := len(string(r))
-			if r == 0xFFFD {
+		win, _ := Str{it.S.B[it.Idx:end]}.Concrete()
+		r0, size := utf8.DecodeRuneInString(win)
+		if r0 == utf8.RuneError && size <= 1 && end < len(it.S.B) && end < it.Idx+4 && !utf8.FullRuneInString(win) {
+			// the sequence may continue into symbolic bytes
+			e.unsupported("range over string with symbolic non-ASCII byte")
+		}
+		cs := win[:size]
+		for _, r := range cs { // the rune
+			n := size
+			if n < 1 {
 				n = 1
-				// invalid encodings advance one byte
-				if len(cs) >= 3 && cs[:3] == "�" {
-					n = 3
-				}
 			}
 			e.set(fr, in, Tuple{smt.True, smt.BV(uint64(it.Idx), 64), smt.BV(uint64(r), 32)})
 			fr.regs[in.Iter] = &IterV{S: it.S, IsS: true, Idx: it.Idx + n}
